@@ -292,6 +292,20 @@ func (c *Ctx) RuleDateFieldStores(pkg *ssa.Package) {
 				if !ok {
 					continue
 				}
+				// whole-struct stores of a Date: the value must itself come from a construction that is subject
+				// to this rule (in-repo call, load, phi, zero value)
+				if types.Identical(st.Val.Type(), dateT) {
+					if _, isParam := st.Val.(*ssa.Parameter); isParam {
+						continue // spill of a value receiver / parameter
+					}
+					switch why := c.dateValueOrigin(st.Val, 0); why {
+					case "":
+						c.addc("undecided", "C11.range", fn, st.Pos(), "store Date", "whole Date stored from a value of unrecognised origin (idioms: result of an in-repo constructor, copy of another Date, zero value)", "")
+					default:
+						c.addc("discharged", "C11.range", fn, st.Pos(), "store Date", "whole Date stored from "+why, "")
+					}
+					continue
+				}
 				fa, ok := st.Addr.(*ssa.FieldAddr)
 				if !ok {
 					continue
@@ -689,9 +703,9 @@ func (c *Ctx) RuleNumericCompare(fn *ssa.Function, digitsOnly func(g *ssa.Global
 	}
 	rec(start)
 	if bad != nil {
-		c.add("violated", "C06.num", fn, lastPos(bad), "both operands are established to be all-digit, yet a path reaches the result without a length comparison or numeric conversion: numeric identifiers are compared lexically (2 > 11)")
+		c.addc("violated", "C06.num", fn, lastPos(bad), "numeric branch", "both operands are established to be all-digit, yet a path reaches the result without a length comparison or numeric conversion: numeric identifiers are compared lexically", "1.0.0-2 vs 1.0.0-11")
 	} else {
-		c.add("discharged", "C06.num", fn, start.Instrs[0].Pos(), "numeric branch compares by length or value")
+		c.addc("discharged", "C06.num", fn, start.Instrs[0].Pos(), "numeric branch", "numeric branch compares by length or value", "")
 	}
 }
 
@@ -713,4 +727,44 @@ func elemKey(v ssa.Value) (string, bool) {
 		return "", false
 	}
 	return fmt.Sprintf("%s[%d]", p.Name(), k), true
+}
+
+// dateValueOrigin classifies where a whole Date value comes from; "" if unrecognised.
+func (c *Ctx) dateValueOrigin(v ssa.Value, depth int) string {
+	if depth > 6 {
+		return ""
+	}
+	switch x := v.(type) {
+	case *ssa.Const:
+		return "the zero value"
+	case *ssa.Parameter:
+		return "a Date parameter (valid by the type's invariant)"
+	case *ssa.UnOp:
+		if x.Op == token.MUL {
+			return "a copy of another Date (valid by the type's invariant)"
+		}
+	case *ssa.Call:
+		if f := c.StaticCallee(&x.Call); f != nil && inRepo(f) {
+			return "the result of " + FnName(f) + " (whose own stores are checked by this rule)"
+		}
+	case *ssa.Extract:
+		if call, ok := x.Tuple.(*ssa.Call); ok {
+			if f := c.StaticCallee(&call.Call); f != nil && inRepo(f) {
+				return "a result of " + FnName(f) + " (whose own stores are checked by this rule)"
+			}
+		}
+	case *ssa.Phi:
+		why := ""
+		for _, e := range x.Edges {
+			w := c.dateValueOrigin(e, depth+1)
+			if w == "" {
+				return ""
+			}
+			why = w
+		}
+		return why
+	case *ssa.Field, *ssa.ChangeType:
+		return "a field/copy of an existing Date"
+	}
+	return ""
 }
